@@ -58,6 +58,10 @@ pub struct StreamCase {
     /// `read` returning 0 before that is provably "0 while the peer is open"
     pub eof_handshake: bool,
     pub faults: Vec<Fault>,
+    /// how the tiny-std side writes a chunk (only without injected faults): 0 `write` until the chunk is out,
+    /// 1 one `write_all`, 2 one `write!(stream, "{}", text)` (the payload is mapped to printable ASCII)
+    #[serde(default)]
+    pub write_via: u8,
 }
 
 pub enum Tiny {
@@ -88,6 +92,18 @@ impl Tiny {
         match self {
             Tiny::U(s) => s.write(b),
             Tiny::T(s) => s.write(b),
+        }
+    }
+    pub fn write_all(&mut self, b: &[u8]) -> tiny_std::Result<()> {
+        match self {
+            Tiny::U(s) => s.write_all(b),
+            Tiny::T(s) => s.write_all(b),
+        }
+    }
+    pub fn write_text(&mut self, t: &str) -> tiny_std::Result<()> {
+        match self {
+            Tiny::U(s) => s.write_fmt(format_args!("{t}")),
+            Tiny::T(s) => s.write_fmt(format_args!("{t}")),
         }
     }
 }
@@ -326,7 +342,14 @@ fn run_stream_inner(c: &StreamCase) -> Result<CaseReport, Stop> {
     let len = c.len as usize;
     // keep the number of calls per transfer bounded (deterministic function of the case)
     let floor = (len / 8192).max(1);
-    let data = Arc::new(payload(c.seed, len));
+    let write_via = if c.tiny_writes && c.faults.is_empty() { c.write_via.min(2) } else { 0 };
+    let mut data = payload(c.seed, len);
+    if write_via == 2 {
+        for b in data.iter_mut() {
+            *b = 0x20 + *b % 95;
+        }
+    }
+    let data = Arc::new(data);
 
     let (mut tiny, peer) = establish(c.tcp, c.tiny_connects, &dir)?;
     let ty = tiny.ty();
@@ -384,7 +407,12 @@ fn run_stream_inner(c: &StreamCase) -> Result<CaseReport, Stop> {
         while off < len {
             let cs = chunk_at(&c.tiny_chunks, i, floor);
             let end = (off + cs).min(len);
-            let r = match no_panic(&format!("{ty}::write"), || tiny.write(&data[off..end])) {
+            let r = match write_via {
+                1 => no_panic(&format!("{ty}::write_all"), || tiny.write_all(&data[off..end]).map(|()| end - off)),
+                2 => no_panic(&format!("{ty}::write_fmt"), || tiny.write_text(core::str::from_utf8(&data[off..end]).expect("ASCII payload")).map(|()| end - off)),
+                _ => no_panic(&format!("{ty}::write"), || tiny.write(&data[off..end])),
+            };
+            let r = match r {
                 Ok(r) => r,
                 Err(f) => {
                     res = Err(f.into());
@@ -443,6 +471,10 @@ fn run_stream_inner(c: &StreamCase) -> Result<CaseReport, Stop> {
         compare_streams(ty, "the libc peer", &data, &out.data)?;
         let cycles = blocked_cycles(&log, sc::nr::WRITE, EAGAIN);
         rep.class_if(cycles > 0, "writer-blocked");
+        rep.class_if(write_via == 1, "chunks-written-with-write_all");
+        rep.class_if(write_via == 2, "chunks-written-with-write!");
+        rep.class_if(write_via == 1 && cycles > 0, "write_all-blocked-on-a-full-buffer");
+        rep.class_if(write_via == 2 && cycles > 0, "write!-blocked-on-a-full-buffer");
         rep.nontrivial_if(cycles > 0);
     } else {
         let hold = if c.eof_handshake { Some(Arc::new(AtomicBool::new(false))) } else { None };
@@ -591,9 +623,9 @@ pub fn stream_strategy(thorough: bool, with_faults: bool) -> BoxedStrategy<Strea
         // stall profile: 0 none, 1 peer starts late, 2 peer pauses, 3 both
         (0u8..4, 200u32..3000, 1u16..6, 100u32..1500),
         (prop_oneof![2 => Just(0u8), 1 => 1u8..4], any::<bool>()),
-        faults,
+        (faults, prop_oneof![3 => Just(0u8), 1 => Just(1u8), 2 => Just(2u8)]),
     )
-        .prop_map(|((tcp, tiny_connects, tiny_writes, len, seed), (tiny_chunks, peer_chunks), (stall, d, every, p), (small_bufs, eof_handshake), faults)| StreamCase {
+        .prop_map(|((tcp, tiny_connects, tiny_writes, len, seed), (tiny_chunks, peer_chunks), (stall, d, every, p), (small_bufs, eof_handshake), (faults, write_via))| StreamCase {
             tcp,
             tiny_connects,
             tiny_writes,
@@ -606,6 +638,7 @@ pub fn stream_strategy(thorough: bool, with_faults: bool) -> BoxedStrategy<Strea
             peer_pause_us: if stall & 2 != 0 { p } else { 0 },
             small_bufs,
             eof_handshake: eof_handshake && !tiny_writes,
+            write_via: if tiny_writes && faults.is_empty() { write_via } else { 0 },
             faults,
         })
         .boxed()
